@@ -61,7 +61,7 @@ def glideObs (g : Glide) : String :=
 def ribbonObs (r : Ribbon) : String :=
   join [toString (b2n r.pressing), fb r.value, fb r.current, toString r.received, toString r.written,
         toString (b2n r.justPressed), toString (b2n r.justReleased),
-        toString (if r.buff.filled then r.buff.capacity else r.buff.writeAt)]
+        toString r.buff.len]
 
 def natOf (s : String) : Nat := s.toNat!
 def fOf (s : String) : F32 := ofBits s.toNat!
